@@ -1073,12 +1073,18 @@ func scenario(r *rand.Rand, k int) []Entry {
 	case 16: // SymlinkIgnore: copies of absolute (re-rooted) and cwd-relative targets, pass order matters
 		return []Entry{{Name: "l", Type: "sym", Link: "/etc/" + f}, {Name: "etc/" + f, Type: "reg", Size: 9}, {Name: "a/k", Type: "sym", Link: "cf"},
 			{Name: "m", Type: "hard", Link: "etc/" + f}, {Name: "n/o", Type: "sym", Link: "/l"}}
+	case 17: // links aimed at the prefix-confusable siblings of the target THROUGH an earlier "s -> ." link:
+		// the lexical check accepts them, only the final sweep can stop them
+		dest := []string{"../targetx", "../target-evil", "../target-evil/keep", "../targetx/y", "../target-evil2"}
+		return []Entry{{Name: "s", Type: "sym", Link: "."}, {Name: "s/l", Type: "sym", Link: dest[r.Intn(len(dest))]},
+			{Name: "s/m", Type: []string{"sym", "hard"}[r.Intn(2)], Link: dest[r.Intn(3)]}, {Name: "d/" + f, Type: "reg", Size: 2},
+			{Name: "d/s2", Type: "sym", Link: ".."}, {Name: "d/s2/n", Type: "sym", Link: dest[r.Intn(3)]}}
 	default: // dangling link in the parent chain
 		return []Entry{{Name: "dl", Type: "sym", Link: "missing"}, {Name: "dl/" + f, Type: "reg", Size: 2}, {Name: "dl2", Type: "sym", Link: "dl/x"}}
 	}
 }
 
-const nScenarios = 18
+const nScenarios = 19
 
 func genUnpack(r *rand.Rand, stream string) *Case {
 	c := &Case{Stream: stream, Op: "unpack-tarball", Passes: []int{1, 2, 3, 3, 3}[r.Intn(5)], MaxBytes: []int64{0, 0, 10, 1 << 30}[r.Intn(4)]}
@@ -1103,6 +1109,9 @@ func genUnpack(r *rand.Rand, stream string) *Case {
 		if k == 16 {
 			c.Op = "unpack-tarball"
 			c.Ignore = r.Intn(4) != 0
+		}
+		if k == 17 {
+			c.EvilSibling = true
 		}
 		sc := scenario(r, k)
 		for _, e := range sc {
